@@ -1200,6 +1200,9 @@ class Exec:
                     return
         if not any(o.search(call.short) for o in self.opaque):
             f = self.resolve(call.callee) if isinstance(call.callee, str) else None
+            if f is not None and f.blocks and call.depth >= self.max_depth and call.depth < self.max_depth + 4 and self.is_derived(f):
+                # `#[derive(PartialEq/Clone/..)]` bodies are structural: executing them does not count towards the inline depth
+                return self.run_fn(f, call.args, p, call.depth + 1, k)
             if f is not None and call.depth < self.max_depth and f.blocks:
                 p.events.append(Event('enter', call.short, call.args, None, call.span, call.depth))
 
@@ -1208,6 +1211,21 @@ class Exec:
                     k(q, ret)
                 return self.run_fn(f, call.args, p, call.depth + 1, after)
         self.opaque_call(p, call, k)
+
+    def is_derived(self, f):
+        if f.impl_span is None:
+            return False
+        key = ('derived', f.impl_span)
+        if key not in self._resolve_cache:
+            m = re.fullmatch(r'(.*?):(\d+):(\d+): (\d+):(\d+)', f.impl_span)
+            res = False
+            if m:
+                lines = self.prog.src_lines(m.group(1))
+                l1, c1 = int(m.group(2)), int(m.group(3))
+                if lines and l1 <= len(lines):
+                    res = not lines[l1 - 1][c1 - 1:].lstrip().startswith(('impl', 'unsafe impl'))
+            self._resolve_cache[key] = res
+        return self._resolve_cache[key]
 
     def opaque_call(self, p, call, k, effect=None):
         name = self.result_name(p, call)
